@@ -136,6 +136,8 @@ pub fn compile(cases: &[FarmCase], n_crates: usize) -> Result<FarmResult, String
         .arg("--offline")
         .arg("--workspace")
         .arg("--keep-going")
+        .arg("-j")
+        .arg("8")
         .arg("--message-format=short")
         .env("CARGO_TARGET_DIR", dir.join("target"))
         .env("CARGO_NET_OFFLINE", "true")
@@ -198,6 +200,174 @@ pub fn compile(cases: &[FarmCase], n_crates: usize) -> Result<FarmResult, String
         compiled: cases.len(),
         crates: n_crates,
         errors: errors.into_values().collect(),
+        wall_s: start.elapsed().as_secs_f64(),
+    })
+}
+
+// ---------------------------------------------------------------------------
+// round trips with the real compiled types (thorough tier of C01)
+
+pub struct RtCase {
+    pub label: String,
+    pub replay: Value,
+    pub tokens: String,
+    /// (registry id, Rust type path as named by the generator, encodings)
+    pub tests: Vec<(u32, String, Vec<Vec<u8>>)>,
+}
+
+pub struct RtFailure {
+    pub case: usize,
+    pub id: u32,
+    pub message: String,
+}
+
+pub struct RtResult {
+    pub cases: usize,
+    pub decodes: u64,
+    pub crates: usize,
+    pub compile_errors: Vec<FarmError>,
+    pub failures: Vec<RtFailure>,
+    pub wall_s: f64,
+}
+
+/// Compile every case into one of `n_crates` binaries and run them: every encoding must decode
+/// with the named type, consume all input and re-encode to the same bytes.
+pub fn roundtrip(cases: &[RtCase], n_crates: usize) -> Result<RtResult, String> {
+    let start = std::time::Instant::now();
+    let dir = scratch_dir();
+    let _ = std::fs::remove_dir_all(&dir);
+    std::fs::create_dir_all(&dir).map_err(|e| format!("scratch dir {}: {e}", dir.display()))?;
+    struct Cleanup(PathBuf);
+    impl Drop for Cleanup {
+        fn drop(&mut self) {
+            let _ = std::fs::remove_dir_all(&self.0);
+        }
+    }
+    let _cleanup = Cleanup(dir.clone());
+    let n_crates = n_crates.max(1).min(cases.len().max(1));
+    let members: Vec<String> = (0..n_crates).map(|i| format!("rt{i}")).collect();
+    let mut ws = String::from("[workspace]\nresolver = \"2\"\nmembers = [\"verif_support\"");
+    for m in &members {
+        ws.push_str(&format!(", \"{m}\""));
+    }
+    ws.push_str("]\n[profile.dev]\ndebug = false\nincremental = false\nopt-level = 0\n");
+    std::fs::write(dir.join("Cargo.toml"), ws).map_err(|e| e.to_string())?;
+    std::fs::copy("/repo/Cargo.lock", dir.join("Cargo.lock")).map_err(|e| format!("copy Cargo.lock: {e}"))?;
+    std::fs::create_dir_all(dir.join(".cargo")).map_err(|e| e.to_string())?;
+    std::fs::write(dir.join(".cargo/config.toml"), "[net]\noffline = true\n").map_err(|e| e.to_string())?;
+    let dep = "parity-scale-codec = { version = \"3.6.12\", features = [\"derive\"] }\n";
+    std::fs::create_dir_all(dir.join("verif_support/src")).map_err(|e| e.to_string())?;
+    std::fs::write(
+        dir.join("verif_support/Cargo.toml"),
+        format!("[package]\nname = \"verif_support\"\nversion = \"0.1.0\"\nedition = \"2021\"\n[dependencies]\n{dep}"),
+    )
+    .map_err(|e| e.to_string())?;
+    std::fs::write(dir.join("verif_support/src/lib.rs"), SUPPORT).map_err(|e| e.to_string())?;
+    let mut line_maps: Vec<Vec<usize>> = vec![vec![]; n_crates];
+    let mut sources: Vec<String> = vec!["#![allow(warnings)]\n".to_string(); n_crates];
+    let mut mains: Vec<String> = vec![String::new(); n_crates];
+    let mut decodes = 0u64;
+    for (i, c) in cases.iter().enumerate() {
+        let k = i % n_crates;
+        let one_line = c.tokens.replace('\n', " ");
+        let mut body = String::new();
+        for (id, path, encs) in &c.tests {
+            for (j, e) in encs.iter().enumerate() {
+                decodes += 1;
+                let bytes: Vec<String> = e.iter().map(|b| b.to_string()).collect();
+                body.push_str(&format!(
+                    "{{ let b: &[u8] = &[{}]; let mut c = b; match <{path} as ::parity_scale_codec::Decode>::decode(&mut c) {{ Err(e) => println!(\"FAIL {i} {id} enc{j} does-not-decode {{}}\", e), Ok(v) => {{ if !c.is_empty() {{ println!(\"FAIL {i} {id} enc{j} trailing-bytes {{}}\", c.len()); }} let r = ::parity_scale_codec::Encode::encode(&v); if r != b {{ println!(\"FAIL {i} {id} enc{j} re-encodes-differently {{:?}}\", r); }} }} }} }} ",
+                    bytes.join(",")
+                ));
+            }
+        }
+        sources[k].push_str(&format!("pub mod case_{i} {{ {one_line} pub fn run() {{ {body} }} }}\n"));
+        mains[k].push_str(&format!("    case_{i}::run();\n"));
+        line_maps[k].push(i);
+    }
+    for (k, m) in members.iter().enumerate() {
+        std::fs::create_dir_all(dir.join(m).join("src")).map_err(|e| e.to_string())?;
+        std::fs::write(
+            dir.join(m).join("Cargo.toml"),
+            format!(
+                "[package]\nname = \"{m}\"\nversion = \"0.1.0\"\nedition = \"2021\"\n[dependencies]\n{dep}verif_support = {{ path = \"../verif_support\" }}\n"
+            ),
+        )
+        .map_err(|e| e.to_string())?;
+        let src = format!("{}fn main() {{\n{}    println!(\"DONE\");\n}}\n", sources[k], mains[k]);
+        std::fs::write(dir.join(m).join("src/main.rs"), src).map_err(|e| e.to_string())?;
+    }
+    let out = Command::new("cargo")
+        .arg("build")
+        .arg("--offline")
+        .arg("--workspace")
+        .arg("--keep-going")
+        .arg("-j")
+        .arg("8")
+        .arg("--message-format=short")
+        .env("CARGO_TARGET_DIR", dir.join("target"))
+        .env("CARGO_NET_OFFLINE", "true")
+        .env_remove("RUSTFLAGS")
+        .current_dir(&dir)
+        .output()
+        .map_err(|e| format!("cargo build: {e}"))?;
+    let stderr = String::from_utf8_lossy(&out.stderr).to_string();
+    let mut compile_errors: BTreeMap<usize, FarmError> = BTreeMap::new();
+    for line in stderr.lines() {
+        let Some((loc, rest)) = line.split_once(": error") else { continue };
+        let mut parts = loc.split(':');
+        let file = parts.next().unwrap_or("");
+        let lineno: Option<usize> = parts.next().and_then(|s| s.parse().ok());
+        let Some(k) = file.split('/').next().and_then(|s| s.strip_prefix("rt")).and_then(|s| s.parse::<usize>().ok()) else {
+            continue;
+        };
+        let Some(case) = lineno.and_then(|ln| ln.checked_sub(2)).and_then(|i| line_maps.get(k).and_then(|m| m.get(i))).copied() else {
+            continue;
+        };
+        let message = rest.trim_start_matches(|c| c != ':').trim_start_matches(':').trim().to_string();
+        let code = if rest.starts_with('[') {
+            rest.trim_start_matches('[').split(']').next().unwrap_or("").to_string()
+        } else {
+            "error".to_string()
+        };
+        compile_errors.entry(case).or_insert(FarmError { case, code, message });
+    }
+    let mut failures = vec![];
+    for m in &members {
+        let bin = dir.join("target/debug").join(m);
+        if !bin.exists() {
+            continue; // did not compile: reported through compile_errors
+        }
+        let o = Command::new(&bin).output().map_err(|e| format!("running {m}: {e}"))?;
+        let so = String::from_utf8_lossy(&o.stdout).to_string();
+        if !so.contains("DONE") {
+            return Err(format!("round-trip binary {m} did not finish (status {:?})", o.status));
+        }
+        for l in so.lines() {
+            if let Some(r) = l.strip_prefix("FAIL ") {
+                let mut it = r.splitn(3, ' ');
+                let case: usize = it.next().and_then(|s| s.parse().ok()).unwrap_or(0);
+                let id: u32 = it.next().and_then(|s| s.parse().ok()).unwrap_or(0);
+                failures.push(RtFailure {
+                    case,
+                    id,
+                    message: it.next().unwrap_or("").to_string(),
+                });
+            }
+        }
+    }
+    if compile_errors.is_empty() && !out.status.success() {
+        return Err(format!(
+            "cargo build failed without a diagnostic that maps to a case:\n{}",
+            stderr.lines().rev().take(30).collect::<Vec<_>>().into_iter().rev().collect::<Vec<_>>().join("\n")
+        ));
+    }
+    Ok(RtResult {
+        cases: cases.len(),
+        decodes,
+        crates: n_crates,
+        compile_errors: compile_errors.into_values().collect(),
+        failures,
         wall_s: start.elapsed().as_secs_f64(),
     })
 }
